@@ -259,9 +259,9 @@ example : kindNewCombo (zCircle 2500).kind = false ∧ kindNewCombo ({ zCircle 2
   only_first_after_break_forced_partial (fun _ => True) z_le_lt [zBreak 1000 2000] [zCircle 500, zCircle 2500, zCircle 3000]
     (fun _ _ => trivial) (fun _ _ => trivial) (by simp) 1 (zCircle 2500) _ rfl rfl (by decide)
 
-/- Remark: `hsorted` is probably stronger than needed: on a strict total order a chain argument
-(`b_c < s_j ≤ b_{c_j} < s_k ≤ …≤ b_c`) gives the clause for the cursor break for ANY listing of the breaks; not proved here
-(`only_first_after_break_forced_statement` stays open without an order law; with NaN times nothing of the kind holds). -/
+/- Remark: `hsorted` is not needed: Props/C15ComboOnlyAny.lean proves the clause for ANY listing of the breaks from one
+NaN-free order law (`ChainLaw`), which IEEE `<` satisfies on all values — `only_first_after_break_forced_float` is
+`only_first_after_break_forced_statement Float Float32`, unconditional. -/
 
 #print axioms postProcessBreaks_flags
 #print axioms forced_consumed_by_hold
